@@ -11,18 +11,113 @@ VERIF = vf.VERIF
 
 # property -> (level text, level note, technique, design_ref)
 CLAIMS = {
-    "C09": (
-        "Bounded model checking of the real length-code functions over ALL 2^32 lengths and all "
-        "256 codes at once (symbolic u32 / symbolic code index): totality, defining property of the "
-        "code against an independent pinned copy of the 170-entry table, monotonicity, range() "
-        "tiling, and the table-slice invariants handed to the optimiser under feature `unsafe`. "
-        "The only loop (binary search) is fully unwound (unwinding assertion on), so within these "
-        "functions the result is not bounded in input size.",
-        "Trusted: Kani's MIR->goto translation, CBMC 6.11 + CaDiCaL, the pinned reference copy of "
-        "the TLSH topval table (provenance in harness/refmodel.rs). `generated hash carries the "
-        "code of the bytes fed' is discharged by the finalize lemma listed under C01/C11.",
-        "Kani/CBMC bounded model checking (SAT) of compiled MIR, symbolic inputs",
-        "DESIGN.md section 5, C09",
+    'C01': (
+        'Every step of the generator is decided by the solver against an independent reference model, as a chain of lemmas over the real code: (P) both bucket-mapping functions == reference Pearson chain for all 2^32 inputs, in the table and table-less configurations; (K) checksum update == reference with the real mapping; (I) increment touches exactly one counter, wrapping, for arbitrary counter values; (S) update(piece) produces exactly the call trace TLSH defines (salts, byte pairing, order, checksum chain, window shift) from an arbitrary generator state, for concrete tail fill 0..4 and piece lengths up to 9 with symbolic contents; (F) finalize_with_options == reference on ALL states (symbolic u32 counters incl. >=2^24/2^31, full-range length, all 32 option settings): gate order, checksum, length code, body; (Q) Q-ratio arithmetic in both modes on q3<2^8 and, at full width, on q3 a power of two. The composition (induction over the byte stream; re-indexing) is written in DESIGN.md and is not machine-checked.',
+        "Trusted: Kani's MIR->goto translation, CBMC 6.11 + CaDiCaL, the reference model in harness/refmodel.rs (independent table copies), the stubs listed per harness in the evidence (each a model of an unsupported intrinsic, a proved contract, or a caller-supplied trait impl). Bounds: piece length <= 9 per update call (any number of calls by induction from an arbitrary state); select_nth_unstable replaced by its documented contract (order statistic; honest counting model on 48 buckets, any ordered triple on 128/256); Q-ratio values only on the stated domains; legacy float mode relies on CBMC's IEEE-754 semantics and an integer model of u32->f32 rounding.",
+        'Kani/CBMC bounded model checking (SAT) of the compiled MIR with symbolic inputs; lemma decomposition; native replay of counterexamples',
+        'DESIGN.md section 5, C01',
+    ),
+    'C02': (
+        'The distance is decided part by part for ALL hash values: each body kernel (32/64-bit pseudo-SIMD, and per lane SSE2/SSE4.1/AVX2) == sum of reference dibit distances over exactly its own bytes for all pairs of chunks; each distance_12/32/64 of each backend == sum of its kernel over the right chunks (SIMD: kernel stubbed, arbitrary bounded lanes, so a lane-width overflow in the horizontal sum is a counterexample); the entry points select the proved backend; Q-ratio, length and checksum distances == reference for all 2^16 pairs in every table configuration; compare_with_config == sum of the four parts for all pairs of values, both modes, all five variants.',
+        "Trusted: Kani's MIR->goto translation, CBMC 6.11 + CaDiCaL, the reference model in harness/refmodel.rs (independent table copies), the stubs listed per harness in the evidence (each a model of an unsupported intrinsic, a proved contract, or a caller-supplied trait impl). Sums are composed by hand (kernel lemma + structure lemma). SIMD harnesses call each x86 backend directly; packed add/sub/mullo intrinsics are replaced by lane-wise wrapping models because Kani's overflow instrumentation would drop wrapping executions. Runtime CPU detection (OnceLock + cpuid) is not executed.",
+        'Kani/CBMC bounded model checking (SAT) of the compiled MIR with symbolic inputs; lemma decomposition; native replay of counterexamples',
+        'DESIGN.md section 5, C02',
+    ),
+    'C03': (
+        'update(piece) is compared, on the real code on both sides, with feeding the same bytes one at a time (with interleaved empty pieces) from an arbitrary symbolic generator state, for every class of (buffered tail bytes 0..4, piece length) the code distinguishes; and against the specified call trace (lemma S of C01). finalize_with_options is shown to leave every field of an arbitrary state unchanged (it takes &self; asserted field-wise), processed_len == checked sum for all states, and clone is field-wise identity by derive. Independence of chunking for whole histories follows by induction, written in DESIGN.md.',
+        "Trusted: Kani's MIR->goto translation, CBMC 6.11 + CaDiCaL, the reference model in harness/refmodel.rs (independent table copies), the stubs listed per harness in the evidence (each a model of an unsupported intrinsic, a proved contract, or a caller-supplied trait impl). Bounds: pieces of at most 9 bytes per call (unbounded number of calls by induction, because the pre-state is arbitrary); `len` concrete in the structure lemmas (symbolic in the C11 boundary lemmas).",
+        'Kani/CBMC bounded model checking (SAT) of the compiled MIR with symbolic inputs; lemma decomposition; native replay of counterexamples',
+        'DESIGN.md section 5, C03',
+    ),
+    'C04': (
+        'For every value of every variant (all 2^(8*SIZE) byte patterns, symbolic): the text written by store_into_str_bytes has exactly the advertised length, the optional T1 prefix, and each character equals the uppercase digit the reference form prescribes (header nibble-swapped, body plain); parsing it back through from_str_bytes (explicit and auto-detected prefix), from_str, from_str_with and str::parse gives the same value; conversely every accepted string of either right length re-formats to T1 + its own uppercase digits. Run in every hex table configuration (encode full/half/min, decode full/half/quarter/min). Display is driven through core::fmt::write into a fixed sink and equals store_into_str_bytes.',
+        "Trusted: Kani's MIR->goto translation, CBMC 6.11 + CaDiCaL, the reference model in harness/refmodel.rs (independent table copies), the stubs listed per harness in the evidence (each a model of an unsupported intrinsic, a proved contract, or a caller-supplied trait impl). Outside: the hex-simd crate used for body digits with the default `simd` feature (external code; not encoded); to_string's allocation path is covered only through Display equality; Display's checked from_utf8 arm is in the thorough tier only (the unchecked arm of feature `unsafe` is in quick).",
+        'Kani/CBMC bounded model checking (SAT) of the compiled MIR with symbolic inputs; lemma decomposition; native replay of counterexamples',
+        'DESIGN.md section 5, C04',
+    ),
+    'C05': (
+        'For each variant and each candidate length, ALL byte strings of that length (symbolic, including non-UTF-8) and all three prefix modes: the result is Ok exactly when the reference well-formedness predicate holds, the value equals the reference decoding, a wrong length always yields InvalidStringLength, and any other error is one that applies to the input. No panic is reachable (Kani checks every index, slice and arithmetic operation). Run in all four decode-table configurations.',
+        "Trusted: Kani's MIR->goto translation, CBMC 6.11 + CaDiCaL, the reference model in harness/refmodel.rs (independent table copies), the stubs listed per harness in the evidence (each a model of an unsupported intrinsic, a proved contract, or a caller-supplied trait impl). Bounds: lengths are concrete per harness instance: the two accepted lengths of each variant and their neighbours (0, L-3..L+1 on Short); other lengths are rejected by the length gate before any data is read (shown for all slice lengths on the binary path by c06_len_*). hex-simd body decoding (default features) is outside.",
+        'Kani/CBMC bounded model checking (SAT) of the compiled MIR with symbolic inputs; lemma decomposition; native replay of counterexamples',
+        'DESIGN.md section 5, C05',
+    ),
+    'C06': (
+        'For all byte arrays of each variant: TryFrom (array and slice) then store_into_bytes is the identity; every accessor (checksum bytes, length code, Q-ratio byte and nibbles, body bytes, quartile(i) for symbolic i) equals the corresponding field of the byte layout; equality of values is equality of bytes; clear_checksum zeroes exactly the checksum bytes; every slice length other than SIZE_IN_BYTES (symbolic length) is rejected with InvalidStringLength; quartile(i >= N) panics. The hex form relation is the reference text form checked in C04.',
+        "Trusted: Kani's MIR->goto translation, CBMC 6.11 + CaDiCaL, the reference model in harness/refmodel.rs (independent table copies), the stubs listed per harness in the evidence (each a model of an unsupported intrinsic, a proved contract, or a caller-supplied trait impl). No bound beyond the fixed sizes.",
+        'Kani/CBMC bounded model checking (SAT) of the compiled MIR with symbolic inputs; lemma decomposition; native replay of counterexamples',
+        'DESIGN.md section 5, C06',
+    ),
+    'C07': (
+        'Every optimisation-only arm is proved equal to the SAME configuration-independent reference, so any two configurations agree: Pearson (table-less / double table), Q-ratio distance (naive / 16x16 / 256x256), length distance (naive / table), hex decode (4 arms) and encode (3 arms), low-memory buckets, body distance (5 backends), bucket aggregation (naive, SSE2, SSSE3, AVX2 kernels + structure), and the `unsafe` feature (same lemmas with invariant!() turned into checked assertions).',
+        "Trusted: Kani's MIR->goto translation, CBMC 6.11 + CaDiCaL, the reference model in harness/refmodel.rs (independent table copies), the stubs listed per harness in the evidence (each a model of an unsupported intrinsic, a proved contract, or a caller-supplied trait impl). NOT decided by this technique: the `schedules' quantifier (which thread triggers CPU detection) - Kani does not model threads; the claim is reduced to `every function the OnceLock initialiser can store is equivalent' plus std's OnceLock contract. Also outside: the runtime detection ladder itself (cpuid), static -C target-feature builds, hex-simd, non-x86 backends.",
+        'Kani/CBMC bounded model checking (SAT) of the compiled MIR with symbolic inputs; lemma decomposition; native replay of counterexamples',
+        'DESIGN.md section 5, C07',
+    ),
+    'C08': (
+        'On the real compare_with_config for all pairs of Short values and both modes: d(a,a)=0, symmetry, d <= max_distance, max attained (cover witness produced by the solver), d_Default = 0 => equal bytes, d_Default = d_NoLength + length distance, clear_checksum lowers d by the checksum distance. For the larger variants the same facts follow from the sum lemma (C02) and the part lemmas, each part distance being symmetric, bounded by its MAX_DISTANCE, zero iff equal, with max_distance equal to the sum of the part maxima (all checked).',
+        "Trusted: Kani's MIR->goto translation, CBMC 6.11 + CaDiCaL, the reference model in harness/refmodel.rs (independent table copies), the stubs listed per harness in the evidence (each a model of an unsupported intrinsic, a proved contract, or a caller-supplied trait impl). Direct whole-value harnesses for Normal are in the thorough tier; Long variants are by composition only.",
+        'Kani/CBMC bounded model checking (SAT) of the compiled MIR with symbolic inputs; lemma decomposition; native replay of counterexamples',
+        'DESIGN.md section 5, C08',
+    ),
+    'C09': (
+        'Bounded model checking of the real length-code functions over ALL 2^32 lengths and all 256 codes at once (symbolic u32 / symbolic code index): totality, defining property of the code against an independent pinned copy of the 170-entry table, monotonicity, range() tiling and exactness, and the table-slice invariants handed to the optimiser under feature `unsafe`. The only loop (binary search) is fully unwound (unwinding assertion on), so within these functions the result is not bounded in input size.',
+        "Trusted: Kani's MIR->goto translation, CBMC 6.11 + CaDiCaL, the reference model in harness/refmodel.rs (independent table copies), the stubs listed per harness in the evidence (each a model of an unsupported intrinsic, a proved contract, or a caller-supplied trait impl). `generated hash carries the code of the bytes fed' is discharged by the finalize lemma (f_*_main) through the contract of new().",
+        'Kani/CBMC bounded model checking (SAT) of the compiled MIR with symbolic inputs; lemma decomposition; native replay of counterexamples',
+        'DESIGN.md section 5, C09',
+    ),
+    'C10': (
+        "finalize_with_options == reference gates for all states and all 32 option settings (lemma F of C01), DataLengthValidity::new/is_err/is_err_on == reference for all 2^32 lengths, 3 bucket sizes, 2 modes, published constants equal; monotonicity of the reference gates in the permissiveness order for all inputs; and directly on the real code: two finalize calls on the same arbitrary Short state with o <= o' give Ok(h) => Ok(h).",
+        "Trusted: Kani's MIR->goto translation, CBMC 6.11 + CaDiCaL, the reference model in harness/refmodel.rs (independent table copies), the stubs listed per harness in the evidence (each a model of an unsupported intrinsic, a proved contract, or a caller-supplied trait impl). The direct two-call harness uses an arbitrary ordered quartile triple (same for both calls).",
+        'Kani/CBMC bounded model checking (SAT) of the compiled MIR with symbolic inputs; lemma decomposition; native replay of counterexamples',
+        'DESIGN.md section 5, C10',
+    ),
+    'C11': (
+        'processed_len == checked sum for all (len, tail_len); finalize returns TooLargeInput exactly when the fed total exceeds 4,224,281,216 or is unknown, and length code 169 at the maximum (lemma F with symbolic full-range len); update at the 2^32-4 saturation boundary: for every amount of room 0..5 and piece length up to 6 (concrete), exactly the bytes below the mark are consumed (call trace), len never wraps (overflow checks on), processed_len turns None exactly at 2^32.',
+        "Trusted: Kani's MIR->goto translation, CBMC 6.11 + CaDiCaL, the reference model in harness/refmodel.rs (independent table copies), the stubs listed per harness in the evidence (each a model of an unsupported intrinsic, a proved contract, or a caller-supplied trait impl). Outside the bound: a single update call with a slice >= 4 GiB (the unwrap_or(u32::MAX) arm: such a slice cannot be represented); `len` is concrete at the boundary instances and at one interior point (a symbolic-len instance is in the thorough tier); real multi-GiB streams are not fed.",
+        'Kani/CBMC bounded model checking (SAT) of the compiled MIR with symbolic inputs; lemma decomposition; native replay of counterexamples',
+        'DESIGN.md section 5, C11',
+    ),
+    'C12': (
+        "The generic read loop hash_stream_common<R, G> is executed with a scripted symbolic reader (<= 4 steps over {deliver n with 1<=n<=1 MiB symbolic, Interrupted, 4 kinds of hard error, EOF}) and a recording generator with an arbitrary finalize result: the updates are exactly the delivered prefixes of the helper's buffer, in order; Interrupted is retried; one finalize with default options; first hard error returned as IOError of that kind and no hash.",
+        "Trusted: Kani's MIR->goto translation, CBMC 6.11 + CaDiCaL, the reference model in harness/refmodel.rs (independent table copies), the stubs listed per harness in the evidence (each a model of an unsupported intrinsic, a proved contract, or a caller-supplied trait impl). Not decided: hash_file* (File::open + the same loop; real file I/O cannot be encoded) and streams of more than 4 reads (the loop body is the same for every iteration). The buffer contents are not inspected (slice identity is).",
+        'Kani/CBMC bounded model checking (SAT) of the compiled MIR with symbolic inputs; lemma decomposition; native replay of counterexamples',
+        'DESIGN.md section 5, C12',
+    ),
+    'C13': (
+        'For all pairs of ASCII strings of the relevant lengths, compare_with::<Short> (and compare on Normal) equals `match (parse l, parse r)` built from the real parser and the real compare, including side and inner error. Case- and prefix-insensitivity follow from C05 (value == reference decoding).',
+        "Trusted: Kani's MIR->goto translation, CBMC 6.11 + CaDiCaL, the reference model in harness/refmodel.rs (independent table copies), the stubs listed per harness in the evidence (each a model of an unsupported intrinsic, a proved contract, or a caller-supplied trait impl). Bounds: concrete length pairs (32,32) (30,32) (32,30) (31,32) (32,5) on Short, (72,5) on Normal in quick; more in thorough; strings restricted to ASCII (a &str must be UTF-8).",
+        'Kani/CBMC bounded model checking (SAT) of the compiled MIR with symbolic inputs; lemma decomposition; native replay of counterexamples',
+        'DESIGN.md section 5, C13',
+    ),
+    'C14': (
+        'For all values, all three forms and ALL buffer lengths 0..=N+64 (symbolic length) with arbitrary prior content: shorter than the advertised size => BufferIsTooSmall and buffer untouched; otherwise Ok(size), the first size bytes equal the representation and every byte beyond is unchanged (symbolic index).',
+        "Trusted: Kani's MIR->goto translation, CBMC 6.11 + CaDiCaL, the reference model in harness/refmodel.rs (independent table copies), the stubs listed per harness in the evidence (each a model of an unsupported intrinsic, a proved contract, or a caller-supplied trait impl). Short and Normal in quick, all five variants in thorough; hex-simd (default features) is outside.",
+        'Kani/CBMC bounded model checking (SAT) of the compiled MIR with symbolic inputs; lemma decomposition; native replay of counterexamples',
+        'DESIGN.md section 5, C14',
+    ),
+    'C15': (
+        'With feature strict-parser: for all byte strings of the accepted lengths and all byte arrays, acceptance == lenient well-formedness AND length code < 170 AND (48-bucket => checksum <= 48), same value, and the attributed error when only one reason applies. Generated hashes: tlsh_b_mapping_48 <= 48 for all inputs, the Short checksum update keeps <= 48, finalize produces a valid length code (lemma F).',
+        "Trusted: Kani's MIR->goto translation, CBMC 6.11 + CaDiCaL, the reference model in harness/refmodel.rs (independent table copies), the stubs listed per harness in the evidence (each a model of an unsupported intrinsic, a proved contract, or a caller-supplied trait impl). Bounds as C05/C06.",
+        'Kani/CBMC bounded model checking (SAT) of the compiled MIR with symbolic inputs; lemma decomposition; native replay of counterexamples',
+        'DESIGN.md section 5, C15',
+    ),
+    'C16': (
+        'With feature serde (also +strict-parser, +serde-buffered): a mock Serializer with symbolic is_human_readable records exactly one serialize_str("T1..") / serialize_bytes(binary form); a mock Deserializer drives the visitors with 8 kinds of events and symbolic payloads: Ok iff the matching parser accepts, same value, never a panic; the entry point used (str/string/bytes/byte_buf) is the documented one; de(ser(h)) == h.',
+        "Trusted: Kani's MIR->goto translation, CBMC 6.11 + CaDiCaL, the reference model in harness/refmodel.rs (independent table copies), the stubs listed per harness in the evidence (each a model of an unsupported intrinsic, a proved contract, or a caller-supplied trait impl). Not decided: serde_json / ciborium / postcard themselves (whole-format parsers); their conformance to the serde data model is trusted. Payload lengths are concrete per instance.",
+        'Kani/CBMC bounded model checking (SAT) of the compiled MIR with symbolic inputs; lemma decomposition; native replay of counterexamples',
+        'DESIGN.md section 5, C16',
+    ),
+    'C17': (
+        "Every harness of C01-C16 already fails on any reachable panic, arithmetic overflow, out-of-bounds index or invalid pointer dereference (Kani's built-in checks), including the unaligned SIMD loads. Additionally: the lemmas containing invariant!() are re-run with feature `unsafe`, where a violated invariant reaches unreachable_unchecked (reported by Kani); a reader that lies about the amount read must end in the slice-bounds panic and nothing else (kani::should_panic fails on any non-panic failure); the documented quartile() panic is confirmed.",
+        "Trusted: Kani's MIR->goto translation, CBMC 6.11 + CaDiCaL, the reference model in harness/refmodel.rs (independent table copies), the stubs listed per harness in the evidence (each a model of an unsupported intrinsic, a proved contract, or a caller-supplied trait impl). Limits of the engine, stated: no uninitialised-memory check, no aliasing model, no data races, no sanitizer observation; call sequences are covered by per-call totality from arbitrary valid states.",
+        'Kani/CBMC bounded model checking (SAT) of the compiled MIR with symbolic inputs; lemma decomposition; native replay of counterexamples',
+        'DESIGN.md section 5, C17',
+    ),
+    'C18': (
+        "Reachability query: with std::alloc::{alloc, alloc_zeroed, realloc} replaced by assert!(false), the sequences {new, update, processed_len, clone, finalize_with_options} and {from_str_bytes accept/reject, TryFrom, store_*, compare_with_config, clear_checksum, accessors} cannot reach the allocator for any input within the bound; a witness harness shows that the stubs do intercept Vec allocation. The `still compiles without std and alloc' clause is a build of the overlay with --no-default-features (a build fact, reported as such).",
+        "Trusted: Kani's MIR->goto translation, CBMC 6.11 + CaDiCaL, the reference model in harness/refmodel.rs (independent table copies), the stubs listed per harness in the evidence (each a model of an unsupported intrinsic, a proved contract, or a caller-supplied trait impl). select_nth_unstable (core: cannot allocate) is stubbed in the generator harness; update pieces of 6+3 bytes.",
+        'Kani/CBMC bounded model checking (SAT) of the compiled MIR with symbolic inputs; lemma decomposition; native replay of counterexamples',
+        'DESIGN.md section 5, C18',
     ),
 }
 
